@@ -3,7 +3,7 @@ import TsV.Lemmas.Outcome
 /-!
 # C09 — lemmas
 
-1. `Pipeline.checkType` characterised on the leaves of a type (only `simple` leaves are renamed);
+1. `Pipeline.checkType` characterised on the leaves of a type (`simple` leaves and generic heads are renamed);
 2. what `resolveRenamed` answers in single-file mode for a program with distinct item names;
 3. the leaf printers under an empty type-mapping table;
 4. the shape of every element of `refs`;
@@ -37,19 +37,19 @@ end
 
 /-- what `check_type` does to one leaf -/
 def recLeaf (crate : Str) (r : Renames) (imports : List ImportedType) (l : Leaf) : Leaf :=
-  if l.head then l else ⟨(resolveRenamed crate r imports l.id).getD l.id, false⟩
+  ⟨(resolveRenamed crate r imports l.id).getD l.id, l.head⟩
 
 mutual
-  /-- **`check_type` keeps the shape of a type and rewrites exactly its `simple` leaves; the head of
-  a generic application keeps the name written in the source** -/
+  /-- **`check_type` keeps the shape of a type and rewrites every name in it — the `simple` leaves
+  and (since the `fix:` commit 821da1d) the heads of generic applications — by `resolve_renamed`** -/
   theorem leaves_checkType (c : Str) (r : Renames) (i : List ImportedType) :
       ∀ t : RustType, leaves (checkType c r i t) = (leaves t).map (recLeaf c r i)
     | .simple id => by
       simp only [checkType, leaves, List.map, recLeaf]
       cases resolveRenamed c r i id <;> simp [leaves]
     | .generic id ps => by
-      simp only [checkType, leaves, List.map_cons, recLeaf, leavesList_checkTypes c r i ps]
-      simp
+      simp only [checkType, leaves, List.map_cons, recLeaf]
+      cases resolveRenamed c r i id <;> simp [leaves, leavesList_checkTypes c r i ps]
     | .vec t => by simp only [checkType, leaves, leaves_checkType c r i t]
     | .array t _ => by simp only [checkType, leaves, leaves_checkType c r i t]
     | .slice t => by simp only [checkType, leaves, leaves_checkType c r i t]
@@ -74,7 +74,8 @@ mutual
       simp only [typeRefs, List.map, checkType, recName]
       cases resolveRenamed [] r [] id <;> simp [leaves]
     | .generic id ps => by
-      simp only [typeRefs, checkType, leaves, List.map_cons, typeRefsList_spelling lc r scope gens ps]
+      simp only [typeRefs, checkType, recName, List.map_cons]
+      cases resolveRenamed [] r [] id <;> simp [leaves, typeRefsList_spelling lc r scope gens ps]
     | .vec t => by simp only [typeRefs, checkType, leaves, typeRefs_spelling lc r scope gens t]
     | .array t _ => by simp only [typeRefs, checkType, leaves, typeRefs_spelling lc r scope gens t]
     | .slice t => by simp only [typeRefs, checkType, leaves, typeRefs_spelling lc r scope gens t]
@@ -295,12 +296,12 @@ theorem enum_mem_typeItems {P : ParsedData} {e : RustEnum} (h : e ∈ P.enums) :
 def baseName (lc : LangCfg) (it : RustItem) : Str :=
   if defUsesOriginal lc it then (itemId it).original else (itemId it).renamed
 
-theorem defName_eq {P : ParsedData} (hk : ∀ a ∈ P.aliases, Lang.Kotlin.isInline a.decorators = false)
-    (lc : LangCfg) {it : RustItem} (h : it ∈ typeItems P) : defName lc it = pfxOf lc ++ baseName lc it := by
+theorem defName_eq (lc : LangCfg) {P : ParsedData} {it : RustItem} (h : it ∈ typeItems P) :
+    defName lc it = pfxOf lc ++ baseName lc it := by
   rcases typeItems_cases h with ⟨s, _, rfl⟩ | ⟨e, _, rfl⟩ | ⟨a, ha, rfl⟩
   · cases lc <;> simp [defName, pfxOf, baseName, defUsesOriginal, itemId]
   · cases lc <;> simp [defName, pfxOf, baseName, defUsesOriginal, itemId]
-  · cases lc <;> simp [defName, pfxOf, baseName, defUsesOriginal, itemId, hk a ha]
+  · cases lc <;> simp [defName, pfxOf, baseName, defUsesOriginal, itemId]
 
 /-! ## 4. the shape of the elements of `refs` -/
 
@@ -308,7 +309,8 @@ mutual
   theorem mem_typeRefs (lc : LangCfg) (r : Renames) (scope gens : List Str) (ref : Ref) :
       ∀ t : RustType, ref ∈ typeRefs lc r scope gens t →
         ∃ id, t.containsType id = true ∧
-          (ref = ⟨spell lc gens (recName r id), tgt scope id, false⟩ ∨ ref = ⟨spell lc gens id, tgt scope id, true⟩)
+          (ref = ⟨spell lc gens (recName r id), tgt scope id, false⟩ ∨
+            ref = ⟨spell lc gens (recName r id), tgt scope id, true⟩)
     | .simple id, h => by
       simp only [typeRefs, List.mem_singleton] at h
       exact ⟨id, by simp [RustType.containsType], .inl h⟩
@@ -341,7 +343,8 @@ mutual
   theorem mem_typeRefsList (lc : LangCfg) (r : Renames) (scope gens : List Str) (ref : Ref) :
       ∀ ts : List RustType, ref ∈ typeRefsList lc r scope gens ts →
         ∃ id, RustType.containsTypeList id ts = true ∧
-          (ref = ⟨spell lc gens (recName r id), tgt scope id, false⟩ ∨ ref = ⟨spell lc gens id, tgt scope id, true⟩)
+          (ref = ⟨spell lc gens (recName r id), tgt scope id, false⟩ ∨
+            ref = ⟨spell lc gens (recName r id), tgt scope id, true⟩)
     | [], h => by simp [typeRefsList] at h
     | t :: ts, h => by
       simp only [typeRefsList, List.mem_append] at h
@@ -356,7 +359,8 @@ end
 (`gens`) are among those in scope, and contain the leaf's name if that is a parameter -/
 def IsLeafRef (lc : LangCfg) (r : Renames) (scope : List Str) (ref : Ref) : Prop :=
   ∃ gens id, (∀ x, x ∈ gens → x ∈ scope) ∧ (id ∈ scope → id ∈ gens) ∧
-    (ref = ⟨spell lc gens (recName r id), tgt scope id, false⟩ ∨ ref = ⟨spell lc gens id, tgt scope id, true⟩)
+    (ref = ⟨spell lc gens (recName r id), tgt scope id, false⟩ ∨
+            ref = ⟨spell lc gens (recName r id), tgt scope id, true⟩)
 
 theorem innerGens_sub (lc : LangCfg) (e : RustEnum) (fs : List RustField) :
     ∀ x, x ∈ innerGens lc e fs → x ∈ e.genericTypes := by
@@ -486,33 +490,23 @@ theorem noShadow {P : ParsedData} (h : Known_shadow P = false) {it : RustItem} (
 
 theorem knownRef_param (lc : LangCfg) (P : ParsedData) (sp : Str) (g : Str) (hd : Bool) :
     KnownRef lc P ⟨sp, .param g, hd⟩ = false := by
-  simp [KnownRef, Known_generic_head, Known_def_original, Known_parent, Known_inner]
+  simp [KnownRef, Known_def_original]
 
-theorem knownRef_plain {P : ParsedData} (hn : DistinctNames P) (lc : LangCfg) {t : RustItem} (ht : t ∈ typeItems P)
-    (sp : Str) : KnownRef lc P ⟨sp, .type (itemId t).original, false⟩ = (Renamed t && defUsesOriginal lc t) := by
-  simp only [KnownRef, Known_generic_head, Known_def_original, Known_parent, Known_inner, Bool.false_and,
-    Bool.not_false, Bool.true_and, Bool.false_or, Bool.or_false, Bool.and_assoc]
+/-- a reference to an item — plain or generic head alike — is in the known class exactly when the
+item is renamed and the back end defines it under its Rust name (a Go enum) -/
+theorem knownRef_type {P : ParsedData} (hn : DistinctNames P) (lc : LangCfg) {t : RustItem} (ht : t ∈ typeItems P)
+    (sp : Str) (hd : Bool) :
+    KnownRef lc P ⟨sp, .type (itemId t).original, hd⟩ = (Renamed t && defUsesOriginal lc t) := by
+  simp only [KnownRef, Known_def_original, Bool.and_assoc]
   exact any_item hn ht fun t' => Renamed t' && defUsesOriginal lc t'
 
-theorem knownRef_head {P : ParsedData} (hn : DistinctNames P) (lc : LangCfg) {t : RustItem} (ht : t ∈ typeItems P)
-    (sp : Str) : KnownRef lc P ⟨sp, .type (itemId t).original, true⟩ = (Renamed t && !defUsesOriginal lc t) := by
-  simp only [KnownRef, Known_generic_head, Known_def_original, Known_parent, Known_inner, Bool.false_and,
-    Bool.not_true, Bool.true_and, Bool.or_false, Bool.and_assoc]
-  exact any_item hn ht fun t' => Renamed t' && !defUsesOriginal lc t'
+theorem knownRef_parent (lc : LangCfg) (P : ParsedData) (sp o : Str) (hd : Bool) :
+    KnownRef lc P ⟨sp, .parent o, hd⟩ = false := by
+  simp [KnownRef, Known_def_original]
 
-theorem knownRef_parent {P : ParsedData} (hn : DistinctNames P) (lc : LangCfg) {e : RustEnum} (he : e ∈ P.enums)
-    (sp : Str) : KnownRef lc P ⟨sp, .parent e.id.original, false⟩ =
-      (isKotlinOrScala lc && (e.keys.isSome && e.id.renamed != e.id.original)) := by
-  simp only [KnownRef, Known_generic_head, Known_def_original, Known_parent, Known_inner, Bool.false_or,
-    Bool.or_false, Bool.and_assoc]
-  rw [any_enum hn he fun e' => e'.keys.isSome && e'.id.renamed != e'.id.original]
-
-theorem knownRef_inner {P : ParsedData} (hn : DistinctNames P) (lc : LangCfg) {e : RustEnum} (he : e ∈ P.enums)
-    (sp v : Str) : KnownRef lc P ⟨sp, .inner e.id.original v, false⟩ =
-      (isKotlinOrScala lc && e.id.renamed != e.id.original) := by
-  simp only [KnownRef, Known_generic_head, Known_def_original, Known_parent, Known_inner, Bool.false_or,
-    Bool.or_false]
-  rw [any_enum hn he fun e' => e'.id.renamed != e'.id.original]
+theorem knownRef_inner (lc : LangCfg) (P : ParsedData) (sp o v : Str) (hd : Bool) :
+    KnownRef lc P ⟨sp, .inner o v, hd⟩ = false := by
+  simp [KnownRef, Known_def_original]
 
 theorem renamed_of_scope {P : ParsedData} (hs : InScope P) {t : RustItem} (ht : t ∈ typeItems P) :
     recName (renamesOf P) (itemId t).original = (itemId t).renamed := by
@@ -549,153 +543,94 @@ theorem leaf_plain {P : ParsedData} (hs : InScope P) {lc : LangCfg} (hc : typeMa
       exact hid hg
   simp [this]
 
-/-- the head of a generic application that names an item of the program -/
-theorem leaf_head {lc : LangCfg} (hc : typeMappingsOf lc = []) {it : RustItem} {gens : List Str}
-    (hsub : ∀ x, x ∈ gens → x ∈ generics it) {id : Str} (hid : id ∉ generics it) :
-    spell lc gens id = pfxOf lc ++ id := by
-  rw [spell_eq hc]
-  have : id ∉ gens := fun h => hid (hsub _ h)
-  simp [this]
-
 theorem bne_false_iff {a b : Str} : ((a != b) = false) ↔ a = b := by simp
 
 /-- **the exact characterisation, per reference**: in a program in scope, without shadowing, a
-reference is spelled with the name its target is defined under if and only if it is in none of the
-`Known_*` classes -/
+reference is spelled with the name its target is defined under if and only if it is not in the
+`Known_def_original` class (a reference to a renamed Go enum) -/
 theorem ref_exact {P : ParsedData} (hs : InScope P) {lc : LangCfg} (hc : typeMappingsOf lc = [])
     (hsh : Known_shadow P = false) {it : RustItem} (hit : it ∈ typeItems P) {ref : Ref}
     (href : ref ∈ refs lc (renamesOf P) it) {n : Str} (hd : Defines lc P ref.target n) :
     ref.spelling = n ↔ KnownRef lc P ref = false := by
   rcases refs_cases lc _ it ref href with ⟨gens, id, hsub, hcompl, hform⟩ | ⟨e, rfl, hpi⟩
-  · -- leaf references
+  · -- leaf references (plain leaves and generic heads alike)
     by_cases hid : id ∈ generics it
     · have htg : tgt (generics it) id = .param id := by simp [tgt_eq, hid]
-      obtain ⟨h1, h2⟩ := leaf_param hc hsh hit hcompl hid
+      obtain ⟨h1, _⟩ := leaf_param hc hsh hit hcompl hid
       rcases hform with rfl | rfl
-      · simp only [htg, Defines] at hd
+      all_goals
+        simp only [htg, Defines] at hd
         subst hd
         simp [htg, knownRef_param, h1]
-      · simp only [htg, Defines] at hd
-        subst hd
-        simp [htg, knownRef_param, h2]
     · have htg : tgt (generics it) id = .type id := by simp [tgt_eq, hid]
       rcases hform with rfl | rfl
-      · simp only [htg, Defines] at hd
+      all_goals
+        simp only [htg, Defines] at hd
         obtain ⟨t, ht, hto, rfl⟩ := hd
         subst hto
-        rw [htg, knownRef_plain hs.distinct lc ht]
-        simp only [leaf_plain hs hc hsh hit hsub ht hid, defName_eq hs.notInline lc ht, baseName,
+        rw [htg, knownRef_type hs.distinct lc ht]
+        simp only [leaf_plain hs hc hsh hit hsub ht hid, defName_eq lc ht, baseName,
           List.append_cancel_left_eq]
         cases hdu : defUsesOriginal lc t <;> simp [Renamed]
-      · simp only [htg, Defines] at hd
-        obtain ⟨t, ht, hto, rfl⟩ := hd
-        subst hto
-        rw [htg, knownRef_head hs.distinct lc ht]
-        simp only [leaf_head hc hsub hid, defName_eq hs.notInline lc ht, baseName, List.append_cancel_left_eq]
-        cases hdu : defUsesOriginal lc t <;> simp [Renamed]
-        exact eq_comm
   · have he : e ∈ P.enums := enum_of_mem_typeItems hit
     rcases hpi with hp | ⟨v, hi⟩
-    · -- parent references
+    · -- parent references: always consistent (since 03e02a1)
+      have hfin : ∀ sp : Str, ref = ⟨sp, .parent e.id.original, false⟩ → sp = defName lc (.enum e) →
+          (ref.spelling = n ↔ KnownRef lc P ref = false) := by
+        intro sp hr hsp
+        subst hr
+        simp only [Defines] at hd
+        obtain ⟨e', he', heq, rfl⟩ := hd
+        have := enum_unique hs.distinct he' he heq
+        subst this
+        simp [knownRef_parent, hsp]
       cases lc with
       | kotlin c =>
         cases hk : e.keys with
         | none => simp [parentRefs, hk] at hp
         | some kc =>
           simp only [parentRefs, hk, List.mem_singleton] at hp
-          subst hp
-          simp only [Defines] at hd
-          obtain ⟨e', he', heq, rfl⟩ := hd
-          have := enum_unique hs.distinct he' he heq
-          subst this
-          rw [knownRef_parent hs.distinct _ he]
-          simp [defName, itemId, isKotlinOrScala, hk]
-          exact eq_comm
+          exact hfin _ hp rfl
       | scala c =>
         cases hk : e.keys with
         | none =>
           simp only [parentRefs, hk, List.mem_singleton] at hp
-          subst hp
-          simp only [Defines] at hd
-          obtain ⟨e', he', heq, rfl⟩ := hd
-          have := enum_unique hs.distinct he' he heq
-          subst this
-          rw [knownRef_parent hs.distinct _ he]
-          simp [defName, itemId, isKotlinOrScala, hk]
+          exact hfin _ hp rfl
         | some kc =>
           simp only [parentRefs, hk, List.mem_singleton] at hp
-          subst hp
-          simp only [Defines] at hd
-          obtain ⟨e', he', heq, rfl⟩ := hd
-          have := enum_unique hs.distinct he' he heq
-          subst this
-          rw [knownRef_parent hs.distinct _ he]
-          simp [defName, itemId, isKotlinOrScala, hk]
-          exact eq_comm
+          exact hfin _ hp rfl
       | typescript c => simp [parentRefs] at hp
       | swift c => simp [parentRefs] at hp
       | go c => simp [parentRefs] at hp
       | python c => simp [parentRefs] at hp
-    · -- helper-struct references
+    · -- helper-struct references: always consistent (since 03e02a1)
+      have hfin : ∀ sp : Str, ref = ⟨sp, .inner e.id.original v, false⟩ → innerDefName lc e v = some sp →
+          (ref.spelling = n ↔ KnownRef lc P ref = false) := by
+        intro sp hr hsp
+        subst hr
+        simp only [Defines] at hd
+        obtain ⟨e', he', heq, hn⟩ := hd
+        have := enum_unique hs.distinct he' he heq
+        subst this
+        rw [hsp, Option.some.injEq] at hn
+        simp [knownRef_inner, hn]
       cases lc with
       | typescript c => simp [innerRefs] at hi
       | kotlin c =>
         simp only [innerRefs, List.mem_singleton] at hi
-        subst hi
-        simp only [Defines] at hd
-        obtain ⟨e', he', heq, hn⟩ := hd
-        have := enum_unique hs.distinct he' he heq
-        subst this
-        rw [knownRef_inner hs.distinct _ he]
-        simp only [innerDefName, Option.some.injEq] at hn
-        subst hn
-        simp [isKotlinOrScala, List.append_assoc]
-        exact eq_comm
+        exact hfin _ hi (by simp [innerDefName, List.append_assoc])
       | scala c =>
         simp only [innerRefs, List.mem_singleton] at hi
-        subst hi
-        simp only [Defines] at hd
-        obtain ⟨e', he', heq, hn⟩ := hd
-        have := enum_unique hs.distinct he' he heq
-        subst this
-        rw [knownRef_inner hs.distinct _ he]
-        simp only [innerDefName, Option.some.injEq] at hn
-        subst hn
-        simp [isKotlinOrScala, List.append_assoc]
-        exact eq_comm
+        exact hfin _ hi rfl
       | swift c =>
         simp only [innerRefs, List.mem_singleton] at hi
-        subst hi
-        simp only [Defines] at hd
-        obtain ⟨e', he', heq, hn⟩ := hd
-        have := enum_unique hs.distinct he' he heq
-        subst this
-        rw [knownRef_inner hs.distinct _ he]
-        simp only [innerDefName, Option.some.injEq] at hn
-        subst hn
-        simp [isKotlinOrScala]
+        exact hfin _ hi rfl
       | go c =>
         simp only [innerRefs, List.mem_singleton] at hi
-        subst hi
-        simp only [Defines] at hd
-        obtain ⟨e', he', heq, hn⟩ := hd
-        have := enum_unique hs.distinct he' he heq
-        subst this
-        rw [knownRef_inner hs.distinct _ he]
-        simp only [innerDefName, Option.some.injEq] at hn
-        subst hn
-        simp [isKotlinOrScala]
+        exact hfin _ hi rfl
       | python c =>
         simp only [innerRefs, List.mem_singleton] at hi
-        subst hi
-        simp only [Defines] at hd
-        obtain ⟨e', he', heq, hn⟩ := hd
-        have := enum_unique hs.distinct he' he heq
-        subst this
-        rw [knownRef_inner hs.distinct _ he]
-        simp only [innerDefName, Option.some.injEq] at hn
-        subst hn
-        simp [isKotlinOrScala]
+        exact hfin _ hi rfl
 
 /-! ## 6. helpers of the corollaries -/
 
@@ -722,73 +657,65 @@ theorem inScope_of (P : ParsedData) (h1 : DistinctNames P)
   noConsts := by simpa using h6
 
 
-/-- a reference in a `Known_*` class refers to something that *is* defined … -/
+/-- a reference in the known class refers to something that *is* defined … -/
 theorem defines_of_known (lc : LangCfg) (P : ParsedData) (ref : Ref) (h : KnownRef lc P ref = true) :
     ∃ n, Defines lc P ref.target n := by
   obtain ⟨sp, tg, hd⟩ := ref
-  simp only [KnownRef, Bool.or_eq_true] at h
   cases tg with
   | type o =>
-    have : ∃ t ∈ typeItems P, (itemId t).original = o := by
-      rcases h with ((h | h) | h) | h
-      · simp only [Known_generic_head, Bool.and_eq_true, List.any_eq_true, beq_iff_eq] at h
-        obtain ⟨_, t, ht, ⟨ho, _⟩, _⟩ := h; exact ⟨t, ht, ho⟩
-      · simp only [Known_def_original, Bool.and_eq_true, List.any_eq_true, beq_iff_eq] at h
-        obtain ⟨_, t, ht, ⟨ho, _⟩, _⟩ := h; exact ⟨t, ht, ho⟩
-      · simp [Known_parent] at h
-      · simp [Known_inner] at h
-    obtain ⟨t, ht, ho⟩ := this
+    simp only [KnownRef, Known_def_original, Bool.and_eq_true, List.any_eq_true, beq_iff_eq] at h
+    obtain ⟨t, ht, ⟨ho, _⟩, _⟩ := h
     exact ⟨_, t, ht, ho, rfl⟩
   | param g => exact ⟨g, rfl⟩
-  | parent o =>
-    rcases h with ((h | h) | h) | h
-    · simp [Known_generic_head] at h
-    · simp [Known_def_original] at h
-    · simp only [Known_parent, Bool.and_eq_true, List.any_eq_true, beq_iff_eq] at h
-      obtain ⟨_, e, he, ⟨ho, _⟩, _⟩ := h
-      exact ⟨_, e, he, ho, rfl⟩
-    · simp [Known_inner] at h
-  | inner o v =>
-    rcases h with ((h | h) | h) | h
-    · simp [Known_generic_head] at h
-    · simp [Known_def_original] at h
-    · simp [Known_parent] at h
-    · simp only [Known_inner, Bool.and_eq_true, List.any_eq_true, beq_iff_eq] at h
-      obtain ⟨hl, e, he, ho, _⟩ := h
-      cases lc <;> simp [isKotlinOrScala] at hl
-      · exact ⟨_, e, he, ho, rfl⟩
-      · exact ⟨_, e, he, ho, rfl⟩
+  | parent o => simp [KnownRef, Known_def_original] at h
+  | inner o v => simp [KnownRef, Known_def_original] at h
 
+/-- … and it is a reference to a renamed enum, printed by the Go back end -/
+theorem known_is_go_enum (lc : LangCfg) (P : ParsedData) (ref : Ref) (h : KnownRef lc P ref = true) :
+    (∃ c, lc = .go c) ∧ ∃ o, ref.target = .type o ∧ ∃ e ∈ P.enums, e.id.original = o ∧ e.id.renamed ≠ e.id.original := by
+  obtain ⟨sp, tg, hd⟩ := ref
+  cases tg with
+  | type o =>
+    simp only [KnownRef, Known_def_original, Bool.and_eq_true, List.any_eq_true, beq_iff_eq] at h
+    obtain ⟨t, ht, ⟨ho, hr⟩, hdu⟩ := h
+    cases lc <;> cases t <;> simp [defUsesOriginal] at hdu
+    rename_i c e
+    refine ⟨⟨c, rfl⟩, o, rfl, e, enum_of_mem_typeItems ht, ho, ?_⟩
+    simpa [Renamed, itemId] using hr
+  | param g => simp [KnownRef, Known_def_original] at h
+  | parent o => simp [KnownRef, Known_def_original] at h
+  | inner o v => simp [KnownRef, Known_def_original] at h
 
 /-- without renamed items no reference is in a known class -/
 theorem knownRef_false_of_not_renamed (lc : LangCfg) (P : ParsedData)
     (h : ∀ t ∈ typeItems P, Renamed t = false) (ref : Ref) : KnownRef lc P ref = false := by
-  have hitems : ∀ q : RustItem → Bool, ∀ o : Str,
-      ((typeItems P).any fun t => (itemId t).original == o && Renamed t && q t) = false := by
-    intro q o
+  obtain ⟨sp, tg, hd⟩ := ref
+  cases tg with
+  | type o =>
+    simp only [KnownRef, Known_def_original]
     apply List.any_eq_false.2
     intro t ht
     simp [h t ht]
-  have henums : ∀ e ∈ P.enums, (e.id.renamed != e.id.original) = false := fun e he =>
-    h (.enum e) (enum_mem_typeItems he)
-  obtain ⟨sp, tg, hd⟩ := ref
-  cases tg with
-  | type o => simp [KnownRef, Known_generic_head, Known_def_original, Known_parent, Known_inner, hitems]
   | param g => exact knownRef_param lc P sp g hd
-  | parent o =>
-    simp only [KnownRef, Known_generic_head, Known_def_original, Known_parent, Known_inner, Bool.false_or,
-      Bool.or_false, Bool.and_eq_false_iff]
-    right
-    apply List.any_eq_false.2
-    intro e he
-    simp [henums e he]
-  | inner o v =>
-    simp only [KnownRef, Known_generic_head, Known_def_original, Known_parent, Known_inner, Bool.false_or,
-      Bool.and_eq_false_iff]
-    right
-    apply List.any_eq_false.2
-    intro e he
-    simp [henums e he]
+  | parent o => exact knownRef_parent lc P sp o hd
+  | inner o v => exact knownRef_inner lc P sp o v hd
 
+/-- outside Go no reference is in a known class -/
+theorem knownRef_false_of_not_go (lc : LangCfg) (hl : ∀ c, lc ≠ .go c) (P : ParsedData) (ref : Ref) :
+    KnownRef lc P ref = false := by
+  cases hk : KnownRef lc P ref with
+  | false => rfl
+  | true =>
+    obtain ⟨⟨c, hc⟩, _⟩ := known_is_go_enum lc P ref hk
+    exact absurd hc (hl c)
+
+/-- in Go, a program without renamed enums has no reference in a known class -/
+theorem knownRef_false_of_no_renamed_enum (lc : LangCfg) (P : ParsedData)
+    (h : ∀ e ∈ P.enums, e.id.renamed = e.id.original) (ref : Ref) : KnownRef lc P ref = false := by
+  cases hk : KnownRef lc P ref with
+  | false => rfl
+  | true =>
+    obtain ⟨_, o, _, e, he, _, hne⟩ := known_is_go_enum lc P ref hk
+    exact absurd (h e he) hne
 
 end TsV.C09
